@@ -40,6 +40,11 @@ SameBonds == Applies({"SameHeavy", "SameAll"}) /\ R.hasbonds = 1 => R.bondsA = R
 (* a part inside a larger structure behaves as the part alone (C05, C13) *)
 InScope(gl) == SelectSeq(gl, LAMBDA g : g.gid \in SetOf(R.scope))
 Part == Applies({"Part"}) => \A c \in Both : SameGroups(R.A[c], InScope(R.B[c]), PAll)
+(* ... also when the rest of the structure comes in several conformations: the part, alone a single conformation, is the
+   same in every conformation of the union and in the reported average *)
+PartOfMulti == Applies({"PartOfMulti"}) =>
+                  /\ \A c \in SetOf(R.cb) : SameGroups(R.A[R.ca[1]], InScope(R.B[c]), PAll)
+                  /\ SameGroups(R.A["AVR"], InScope(R.B["AVR"]), PAll)
 (* titrate-only keeps the environment (C14): listed groups keep desolvation and backbone terms, every
    group of the unrestricted run is still present with the same type *)
 PEnv(a, b) == a.type = b.type /\ a.rtype = b.rtype /\ a.q100 = b.q100 /\ SameDesolv(a, b, E)
